@@ -140,7 +140,18 @@ func RandomScriptC16(rng *rand.Rand) tf.Script {
 // self-delegation below MinSelfDelegation.  The validator keeps status Bonded - and its delegations keep counting
 // as power - until the staking end-blocker of that block; afterwards they no longer count.  Operators and other
 // delegators hold locks and try partial and full removals in the same block and in later blocks.
-func JailScript(rng *rand.Rand) tf.Script {
+func JailScript(rng *rand.Rand) tf.Script { return jailScript(rng, false) }
+
+// JailScriptC07: the same histories for FeedsVote.tla: every lock is a feeds vote of a delegator (no direct SetLock,
+// no vault deactivation, operators do not vote), so that "a vote is locked against withdrawal" meets full removals
+// from a validator that was jailed earlier in the same block or in an earlier one.
+func JailScriptC07(rng *rand.Rand) tf.Script {
+	sc := jailScript(rng, true)
+	sc.Fam = "FeedsVote"
+	return sc
+}
+
+func jailScript(rng *rand.Rand, votesOnly bool) tf.Script {
 	allowed := [][]string{{"d1"}, {"d1"}, {"d1", "d2"}}[rng.Intn(3)]
 	c := randConsts(rng, allowed)
 	c["maxFeeds"] = 3
@@ -153,7 +164,10 @@ func JailScript(rng *rand.Rand) tf.Script {
 	ndel := 1 + rng.Intn(NAcct)
 	vault := func() string { return []string{"k1", "k2", "feeds"}[rng.Intn(3)] }
 	lockOn := func(a int) {
-		if rng.Intn(3) == 0 {
+		if votesOnly && a > NAcct {
+			return
+		}
+		if votesOnly || rng.Intn(3) == 0 {
 			add(tf.M{"e": "Vote", "a": a, "sv": []tf.M{{"s": 1 + rng.Intn(NSignal), "p": 1}}, "shape": "ok", "sym": "power"})
 			return
 		}
@@ -243,7 +257,7 @@ func JailScript(rng *rand.Rand) tf.Script {
 		if rng.Intn(3) == 0 {
 			lockOn(1 + rng.Intn(ndel))
 		}
-		if rng.Intn(5) == 0 {
+		if rng.Intn(5) == 0 && !votesOnly {
 			add(tf.M{"e": "Deactivate", "k": vault()})
 		}
 	}
@@ -303,8 +317,12 @@ func RandomScriptC07(rng *rand.Rand) tf.Script {
 	for i := 0; i < n; i++ {
 		x := rng.Intn(100)
 		switch {
-		case x < 46:
+		case x < 43:
 			steps = append(steps, randVote(rng, acct()))
+		case x < 46:
+			// governance changes the feeds parameters between two recomputations
+			mi := 1 + rng.Intn(2)
+			steps = append(steps, tf.M{"e": "SetPar", "maxFeeds": 1 + rng.Intn(3), "step": 1 + rng.Intn(3), "minI": mi, "maxI": mi + []int{0, 4, 9}[rng.Intn(3)]})
 		case x < 64:
 			steps = append(steps, tf.M{"e": "EndBlock"})
 		case x < 72:
